@@ -28,12 +28,36 @@ def _sl(roi):
     return [[s.start, s.stop] for s in roi]
 
 
-def one_pair(mon: Monitor, rng: random.Random) -> None:
+def pinned_pairs():
+    """Unit-pixel grids with their corner at the CRS origin, in every orientation, against each other and against ordinary neighbours: the grids whose geotransform
+    GDAL takes for "not georeferenced" (D35; seeded change C10-9 treats two such grids as "the same pixel grid" although mirrored ones share no pixel)."""
+    from affine import Affine
+    from odc.geo.geobox import GeoBox
+
+    out = []
+    U = lambda sx, sy, shape=(7, 9): GeoBox(shape, Affine(sx, 0, 0, 0, sy, 0), "EPSG:32633")
+    for (a, b) in [((1, 1), (1, -1)), ((1, -1), (1, 1)), ((1, -1), (1, -1)), ((1, 1), (1, 1)), ((-1, -1), (1, -1)), ((1, -1), (-1, 1))]:
+        src, dst = U(*a), U(*b, shape=(6, 8))
+        P = ~src.affine * dst.affine
+        out.append((src, dst, "mirror" if a != b else "shift", {"paste": True, "int_scale": 1, "P": tuple(P)[:6]}))
+    src = U(1, -1)
+    for dA in (Affine(1, 0, 3, 0, -1, -2), Affine(1, 0, -4, 0, 1, -5), Affine(2, 0, 0, 0, -2, 0)):
+        dst = GeoBox((6, 8), dA, "EPSG:32633")
+        P = ~src.affine * dst.affine
+        out.append((src, dst, "shift", {"paste": None, "int_scale": None, "P": tuple(P)[:6]}))
+        P2 = ~dst.affine * src.affine
+        out.append((dst, src, "shift", {"paste": None, "int_scale": None, "P": tuple(P2)[:6]}))
+    return out
+
+
+def one_pair(mon: Monitor, rng: random.Random, given=None) -> None:
     from odc.geo.overlap import compute_reproject_roi
 
     ttol = rng.choice([0.05, 0.05, 0.01])
     stol = rng.choice([1e-3, 1e-3, 1e-3, 1e-2, 1e-4])
     src, dst, kind, label = pairs.same_crs_pair(rng, ttol=ttol, stol=stol, binary_exact=True)
+    if given is not None:
+        src, dst, kind, label = given
     H, W = src.shape
     ny, nx = dst.shape
     wit = lambda extra=None: {"src": gen.gbox_desc(src), "dst": gen.gbox_desc(dst), "kind": kind, "ttol": ttol, "stol": stol, "P_dst_to_src": label["P"], **(extra or {})}
@@ -130,6 +154,14 @@ def _judge_plan(mon, rng, nprng, ri, src, dst, kind, label, ttol, stol, wit, sig
 def run(mon: Monitor, tier: str, seed: int, shard: int, nshards: int) -> None:
     rng = random.Random(seed * 1000 + shard + 10)
     n = 1800 if tier == "quick" else 30000
+    if shard == 0:
+        for k, g in enumerate(pinned_pairs()):
+            mon.case = {"kind": "pinned", "k": k}
+            try:
+                one_pair(mon, random.Random(1000 + k), given=g)
+                mon.ok("pinned-pairs")
+            except Exception as e:
+                mon.error("pair", e)
     for _ in range(n):
         rs = rng.getrandbits(48)
         mon.case = {"kind": "pair", "rs": rs}
@@ -140,10 +172,12 @@ def run(mon: Monitor, tier: str, seed: int, shard: int, nshards: int) -> None:
     mon.case = None
     for pt, k in [("paste_ok", 1000), ("paste==warp", 2000), ("paste.shrink", 50), ("paste_ok|subpix|paste", 30), ("paste_ok|subpix|no-paste", 30), ("paste_ok|rot|no-paste", 50),
                   ("paste_ok|fscale|no-paste", 50), ("paste_ok|scale|paste", 30), ("paste_ok|scale|no-paste", 10), ("paste_ok|scale|paste|stol=0.01", 5), ("paste_ok|scale|paste|stol=0.0001", 5), ("paste_ok|mirror|paste", 50),
-                  ("paste==warp|int8|overlap|plain", 30), ("paste==warp|bool|overlap|plain", 30), ("paste==warp|float64|overlap|mirror", 10), ("paste==warp|uint16|disjoint|plain", 10), ("plan.padded", 300)]:
+                  ("paste==warp|int8|overlap|plain", 30), ("paste==warp|bool|overlap|plain", 30), ("paste==warp|float64|overlap|mirror", 10), ("paste==warp|uint16|disjoint|plain", 10), ("plan.padded", 300)] + ([("pinned-pairs", 10)] if shard == 0 else []):
         mon.floor(pt, k)
 
 
 def replay(mon: Monitor, case) -> None:
     mon.case = case
+    if case.get("kind") == "pinned":
+        return one_pair(mon, random.Random(1000 + case["k"]), given=pinned_pairs()[case["k"]])
     one_pair(mon, random.Random(case["rs"]))
